@@ -703,6 +703,90 @@ def observer_fields(ctx, adt_path, api_names):
         chain, ty = place_field_chain(pl, body, prog)
         return ty.get('k') == 'adt' and ty.get('path') == adt_path
 
+    fn_by_path = {f['path']: f for f in ctx.facts['fns']}
+
+    def field_local(callee_path, argi, depth=0):
+        """Is the local function `callee_path`, given a reference to (part of) the field as its argument number `argi` (1-based
+        local), self-contained with respect to it: values read through the reference flow only through plain arithmetic back into
+        the referent, are never branched on, never returned, never passed on (except to functions that are themselves
+        field-local)?  Then calling it with `&mut self.field` keeps the field an observer (`self.stats.record_error(e)`)."""
+        g = fn_by_path.get(callee_path)
+        if g is None or g.get('derived') or depth > 3 or 'body' not in g:
+            return False
+        gb = g['body']
+
+        def tracked(pl):
+            return pl['l'] == argi and pl['p'] and pl['p'][0]['k'] == 'deref'
+        taint, refs = set(), {argi}
+        changed = True
+        while changed:
+            changed = False
+            for bb in gb['blocks']:
+                for st_ in bb['stmts']:
+                    if st_['k'] != 'assign':
+                        continue
+                    rv, dest = st_['rv'], st_['pl']
+                    if rv['k'] in ('ref', 'rawptr') and (tracked(rv['pl']) or (rv['pl']['l'] in refs and rv['pl']['p'])):
+                        if dest['p']:
+                            return False
+                        if dest['l'] not in refs:
+                            refs.add(dest['l']); changed = True
+                        continue
+                    srcs = [pl for pl in _rv_places(rv) if pl is not None]
+                    if any((not pl['p']) and pl['l'] in refs for pl in srcs):
+                        # the reference itself is copied / moved / reborrowed
+                        if dest['p'] or rv['k'] not in ('use',):
+                            return False
+                        if dest['l'] not in refs:
+                            refs.add(dest['l']); changed = True
+                        continue
+                    reads = any((pl['l'] in refs and pl['p'] and pl['p'][0]['k'] == 'deref') or pl['l'] in taint for pl in srcs)
+                    if not reads:
+                        continue
+                    if rv['k'] == 'discr':
+                        return False
+                    if dest['l'] in refs and dest['p'] and dest['p'][0]['k'] == 'deref':
+                        continue                        # written back into the referent
+                    if not dest['p']:
+                        if dest['l'] == 0:
+                            return False                # returned
+                        if dest['l'] not in taint:
+                            taint.add(dest['l']); changed = True
+                    elif dest['l'] in taint:
+                        pass
+                    else:
+                        return False
+                t = bb['term']
+                k = t['k']
+                ops = [t['op']] if k == 'switch' else [t['cond']] if k == 'assert' else list(t['args']) if k == 'call' else []
+                used_val = used_ref = None
+                for ai, o in enumerate(ops):
+                    if isinstance(o, dict) and o.get('k') in ('copy', 'move') and 'pl' in o:
+                        pl = o['pl']
+                        if pl['l'] in taint or (pl['l'] in refs and pl['p']):
+                            used_val = ai
+                        elif pl['l'] in refs:
+                            used_ref = ai
+                if used_val is None and used_ref is None:
+                    continue
+                if k in ('switch', 'assert'):
+                    return False
+                fnr = t['fn'].get('fn') or {}
+                if used_ref is not None:
+                    cp = (fnr.get('resolved') or {}).get('path')
+                    if not (cp and (fnr.get('resolved') or {}).get('local') and field_local(cp, used_ref + 1, depth + 1)):
+                        return False
+                    continue
+                nm = (fnr.get('path') or '').split('::')[-1]
+                pure = (fnr.get('path') or '').startswith('core::num::') and nm in PURE_ARITH
+                if not pure or t['dest']['p']:
+                    return False
+                if t['dest']['l'] == 0:
+                    return False
+                if t['dest']['l'] not in taint:
+                    taint.add(t['dest']['l']); changed = True
+        return True
+
     # functions whose RESULT carries a value read from field fi (getters, direct or through other getters): a call to one
     # of them is a read of the field in the caller (the analysis is interprocedural through this set)
     getters = {fi: set() for fi in cand}
@@ -719,6 +803,7 @@ def observer_fields(ctx, adt_path, api_names):
         for body in iter_bodies(f):
             for fi in sorted(cand - relevant):
                 taint = set()
+                mrefs = set()       # locals holding `&mut` into the field: may only be handed to field-local functions
                 bad = False
                 changed = True
                 while changed and not bad:
@@ -737,8 +822,31 @@ def observer_fields(ctx, adt_path, api_names):
                                     reads = True
                                 elif pl['p'] and pl['l'] in taint:
                                     reads = True
+                                elif pl['p'] and pl['l'] in mrefs:
+                                    reads = True        # a read through a `&mut` into the field
                             if rv['k'] in ('ref', 'rawptr') and fi in through(rv['pl'], body):
-                                bad = True              # a reference to the field escapes the analysis
+                                if rv['k'] == 'ref' and rv.get('mut') and not dest['p']:
+                                    if dest['l'] not in mrefs:
+                                        mrefs.add(dest['l']); changed = True
+                                    continue            # judged where it is used (call arguments below)
+                                if rv['k'] == 'ref' and not rv.get('mut') and not dest['p']:
+                                    pass                # a shared reference: reading through it is reading the field (tainted like a copy)
+                                else:
+                                    bad = True          # a raw pointer / a reference stored in memory escapes the analysis
+                            if rv['k'] == 'use' and any(pl is not None and not pl['p'] and pl['l'] in mrefs for pl in srcs):
+                                if dest['p']:
+                                    bad = True
+                                elif dest['l'] not in mrefs:
+                                    mrefs.add(dest['l']); changed = True
+                                continue
+                            if rv['k'] in ('ref', 'rawptr') and rv['pl']['l'] in mrefs:
+                                if dest['p'] or rv['k'] != 'ref':
+                                    bad = True
+                                elif dest['l'] not in mrefs:
+                                    mrefs.add(dest['l']); changed = True
+                                continue
+                            if any(pl is not None and pl['l'] in mrefs and not pl['p'] for pl in srcs):
+                                bad = True              # anything else done with a `&mut` into the field
                             if not reads:
                                 continue
                             if rv['k'] == 'discr':
@@ -749,8 +857,8 @@ def observer_fields(ctx, adt_path, api_names):
                                     bad = True          # returned by an operation the properties describe
                                 if dest['l'] not in taint:
                                     taint.add(dest['l']); changed = True
-                            elif dthru == [fi] or (dthru and dthru[-1] == fi):
-                                pass                    # written back into the same field
+                            elif dthru == [fi] or (dthru and dthru[-1] == fi) or (dest['p'] and dest['l'] in mrefs):
+                                pass                    # written back into the same field (directly or through a `&mut` into it)
                             elif dest['l'] in taint or (dest['l'] == 0 and (getter_ok or is_fmt)):
                                 pass                    # part of an already tainted temporary (e.g. the pair of a checked op)
                             else:
@@ -765,11 +873,20 @@ def observer_fields(ctx, adt_path, api_names):
                         elif k == 'call':
                             ops = list(t['args'])
                         used = False
-                        for o in ops:
+                        mref_arg = None
+                        for ai_, o in enumerate(ops):
                             if isinstance(o, dict) and o.get('k') in ('copy', 'move') and 'pl' in o:
                                 pl = o['pl']
-                                if fi in through(pl, body) or pl['l'] in taint:
+                                if pl['l'] in mrefs and not pl['p']:
+                                    mref_arg = ai_
+                                elif fi in through(pl, body) or pl['l'] in taint or pl['l'] in mrefs:
                                     used = True
+                        if mref_arg is not None:
+                            fnr_ = t['fn'].get('fn') or {}
+                            cp_ = (fnr_.get('resolved') or {}).get('path')
+                            if k != 'call' or used or not (cp_ and (fnr_.get('resolved') or {}).get('local') and field_local(cp_, mref_arg + 1)):
+                                bad = True
+                            continue
                         if k == 'call' and not used:
                             callee_p = ((t['fn'].get('fn') or {}).get('resolved') or {}).get('path')
                             if callee_p in getters[fi]:
